@@ -315,6 +315,14 @@ impl Prop for C13 {
         ensure!(it == model, "QVector: iter() differs from the pushed symbols");
         let it: Vec<u8> = (&qv).into_iter().take(n + 5).collect();
         ensure!(it == model, "QVector: (&qv).into_iter() differs from the pushed symbols");
+        // provided iterator methods (nth, skip, step_by, last, count) on both iterator flavours
+        {
+            let qref = &qv;
+            crate::props::c12::check_adapters(&|| -> Box<dyn Iterator<Item = u8> + '_> { Box::new(qref.iter()) }, &model, n as u64 + 1, "QVector iter()", ctx)?;
+            if n <= 5000 {
+                crate::props::c12::check_adapters(&|| -> Box<dyn Iterator<Item = u8> + '_> { Box::new(qref.clone().into_iter()) }, &model, n as u64 + 2, "QVector into_iter()", ctx)?;
+            }
+        }
         let rebuilt: QVector = model.iter().copied().collect();
         ensure!(rebuilt == qv, "QVector: differs (==) from a vector collected from the same symbols");
         let mut oi = qv.into_iter();
